@@ -35,7 +35,7 @@ UM = "<ec_linear::mutator::umad::Umad<GeneGenerator> as "
 
 
 def targ_is(ctx, call, ty):
-    term = ctx.F.fns[call[4][0]].blocks[call[4][1]]["term"]
+    term = ctx.F.fns[call[4][-2]].blocks[call[4][-1]]["term"]
     return any(t.get("s") == ty for t in term.get("targs", []))
 
 
